@@ -12,6 +12,18 @@ var langs = []string{"und", "eng", "swe", "zho", "en", "sv", "en-US", "zh-Hant-T
 var aacFreqs = []int{96000, 88200, 64000, 48000, 44100, 32000, 24000, 22050, 16000, 12000, 11025, 8000, 7350}
 var timescales = []uint32{1, 1000, 44100, 48000, 90000, 10000000, 0xffffffff}
 
+// pick draws an index in [0,n) that is (nearly) uniform: rapid's own integer generators favour small values and
+// the bounds, which would starve most of a long list. Shrinking still works (towards the index of value 0).
+func pick(t *rapid.T, label string, n int) int {
+	v := rapid.Uint64().Draw(t, label)
+	v ^= v >> 30
+	v *= 0xbf58476d1ce4e5b9
+	v ^= v >> 27
+	v *= 0x94d049bb133111eb
+	v ^= v >> 31
+	return int(v % uint64(n))
+}
+
 func genHist(t *rapid.T) []string {
 	ops := []string{"enc", "enc", "enc", "sw", "sw", "sw", "swbig", "size", "info", "info-all", "info-trun"}
 	h := rapid.SliceOfN(rapid.SampledFrom(ops), 1, 8).Draw(t, "hist")
@@ -109,6 +121,11 @@ var mediaTypes = []string{"video", "video", "video", "audio", "audio", "audio", 
 
 func genInit(t *rapid.T, protect bool) *initR {
 	in := &initR{}
+	if !protect && pct(t, 8, "manualInit") {
+		in.Manual = []boxR{genBox(t, "ftyp", 1), genBox(t, "moov", 1)}
+		in.Manual = append(in.Manual, genSome(t, "manualTail", 1, 1, "free", "skip")...)
+		return in
+	}
 	n := rapid.SampledFrom([]int{1, 1, 2, 2, 3, 4}).Draw(t, "nTracks")
 	if protect {
 		n = 1
@@ -133,6 +150,7 @@ func genInit(t *rapid.T, protect bool) *initR {
 	if pct(t, 10, "topKids") {
 		in.TopKids = genSome(t, "topKid", 1, 2, "free", "skip")
 	}
+	in.Tweak = n == 1 && pct(t, 10, "tweak")
 	if protect {
 		in.Protect = &protectR{Scheme: rapid.SampledFrom([]string{"cenc", "cbcs"}).Draw(t, "scheme"), IVLen: rapid.SampledFrom([]int{8, 16}).Draw(t, "ivLen")}
 		for i, k := 0, rapid.IntRange(0, 2).Draw(t, "nPssh"); i < k; i++ {
@@ -142,7 +160,7 @@ func genInit(t *rapid.T, protect bool) *initR {
 	return in
 }
 
-func genSamples(t *rapid.T, nTracks int, nalu, seiOnly bool) []sampleR {
+func genSamples(t *rapid.T, nTracks int, nalu string, seiOnly bool) []sampleR {
 	n := rapid.IntRange(0, 12).Draw(t, "nSamples")
 	if nTracks > 1 {
 		n = rapid.IntRange(0, 24).Draw(t, "nSamplesMulti")
@@ -167,10 +185,10 @@ func genSamples(t *rapid.T, nTracks int, nalu, seiOnly bool) []sampleR {
 		if !zeroCto {
 			s.Cto = int32(gI32(t, "cto"))
 		}
-		if nalu {
-			s.Nalu = true
-			if s.Size < 5 {
-				s.Size += 5
+		if nalu != "" {
+			s.Nalu = nalu
+			if s.Size < 6 {
+				s.Size += 6
 			}
 			if seiOnly {
 				s.Seed &= 0x7f
@@ -186,7 +204,7 @@ func genSamples(t *rapid.T, nTracks int, nalu, seiOnly bool) []sampleR {
 type fragEnv struct {
 	ids     []uint32
 	protect *protectR
-	video   bool
+	video   string // "avc" | "hevc" | ""
 }
 
 var trafExtras = []string{"sbgp", "sgpd", "subs", "saiz", "saio", "senc", "tfrf", "tfxd"}
@@ -217,8 +235,11 @@ func genFrag(t *rapid.T, env fragEnv) fragR {
 		}
 		fr.Mode = rapid.SampledFrom([]string{"fullTrack", "fullTrack", "metaTrack"}).Draw(t, "mode")
 	}
-	nalu := encrypt && env.video
-	fr.Samples = genSamples(t, len(fr.Tracks), nalu, nalu && env.protect.Scheme == "cbcs")
+	nalu := ""
+	if encrypt {
+		nalu = env.video
+	}
+	fr.Samples = genSamples(t, len(fr.Tracks), nalu, nalu != "" && env.protect.Scheme == "cbcs")
 	fr.Encrypt = encrypt
 	if fr.Ctor == "manual" {
 		fr.Pre = genSome(t, "pre", 1, 2, "prft", "emsg", "emsg")
@@ -235,14 +256,23 @@ func genFrag(t *rapid.T, env fragEnv) fragR {
 		fr.MoofKids = genSome(t, "moofKid", 1, 2, "pssh")
 	}
 	if pct(t, 35, "trafKids") {
+		kinds := trafExtras
+		if encrypt {
+			// EncryptFragment adds saiz, saio and senc itself and DecryptFragment reads them back through the traf's
+			// pointers: further boxes of the protection machinery would replace those pointers
+			kinds = []string{"subs", "tfrf", "tfxd"}
+		}
 		for range fr.Tracks {
-			fr.TrafKids = append(fr.TrafKids, genSome(t, "trafKid", 1, 3, trafExtras...))
+			fr.TrafKids = append(fr.TrafKids, genSome(t, "trafKid", 1, 3, kinds...))
 		}
 	}
 	if pct(t, 25, "tfhdFields") {
 		for range fr.Tracks {
 			fr.Tfhd = append(fr.Tfhd, []int64{int64(rapid.SampledFrom([]int{0, 0x01, 0x02, 0x08, 0x10, 0x20, 0x38, 0x010000}).Draw(t, "tfhdFlags")),
 				gU64(t, "baseOffset"), gU32(t, "sdi"), gU32(t, "defDur"), gU32(t, "defSize"), gU32(t, "defFlags")})
+			if encrypt {
+				fr.Tfhd[len(fr.Tfhd)-1][0] &^= 1 // DecryptFragment locates the samples through the tfhd: no made-up base data offset
+			}
 		}
 	}
 	fr.LargeMdat = pct(t, 10, "largeMdat")
@@ -262,6 +292,9 @@ func genSeg(t *rapid.T, env fragEnv) segR {
 	for i, n := 0, rapid.SampledFrom([]int{0, 0, 1, 1, 2, 3}).Draw(t, "nSidx"); i < n; i++ {
 		sg.Sidxs = append(sg.Sidxs, genBox(t, "sidx", 1))
 	}
+	if len(sg.Sidxs) > 0 {
+		sg.SidxVia = rapid.SampledFrom([]string{"", "", "", "fields", "sidx-only"}).Draw(t, "sidxVia")
+	}
 	for i, n := 0, rapid.SampledFrom([]int{0, 1, 1, 1, 2, 2, 3}).Draw(t, "nFrags"); i < n; i++ {
 		sg.Frags = append(sg.Frags, genFrag(t, env))
 	}
@@ -273,10 +306,16 @@ func envOf(t *rapid.T, in *initR) fragEnv {
 		return fragEnv{ids: rapid.SliceOfNDistinct(rapid.SampledFrom([]uint32{1, 2, 3, 7, 256, 0xffffffff}), 1, 3, func(v uint32) uint32 { return v }).Draw(t, "ids")}
 	}
 	env := fragEnv{protect: in.Protect}
+	if len(in.Manual) > 0 {
+		env.ids = []uint32{1, 2}
+		return env
+	}
 	for i := range in.Tracks {
 		env.ids = append(env.ids, uint32(i+1))
 	}
-	env.video = in.Tracks[0].Codec == "avc" || in.Tracks[0].Codec == "hevc"
+	if cd := in.Tracks[0].Codec; cd == "avc" || cd == "hevc" {
+		env.video = cd
+	}
 	return env
 }
 
@@ -295,6 +334,17 @@ func firstRecipe(r *boxR, name string) *boxR {
 
 func genProg(t *rapid.T) *progR {
 	moov := genBox(t, "moov", 1)
+	// the first track of a progressive file is a complete one built from the box constructors (CreateEmptyTrak gives the
+	// sample-less track of a fragmented file, after which File.AddChild files an mdat box under media segments)
+	for i := range moov.K {
+		if moov.K[i].T == "trak" {
+			break
+		}
+		if moov.K[i].T == "trak-empty" {
+			moov.K[i] = genBox(t, "trak", 2)
+			break
+		}
+	}
 	// the first track of a progressive file has samples (an empty stts box marks the moov of a fragmented file)
 	if stts := firstRecipe(&moov, "stts"); stts != nil && stts.n(0) == 0 {
 		stts.N = []int64{1, int64(rapid.IntRange(1, 100).Draw(t, "sttsCount")), gU32(t, "sttsDelta")}
@@ -315,8 +365,9 @@ func genProg(t *rapid.T) *progR {
 }
 
 func genAPICase(t *rapid.T) apiCase {
-	c := apiCase{Kind: rapid.SampledFrom([]string{"init", "init", "init", "init", "fragment", "fragment", "fragment", "fragment", "segment", "segment", "segment",
-		"file-frag", "file-frag", "file-frag", "file-frag", "file-prog", "file-prog", "box", "box", "box", "box"}).Draw(t, "kind")}
+	kinds := []string{"init", "init", "init", "fragment", "fragment", "fragment", "fragment", "segment", "segment", "segment",
+		"file-frag", "file-frag", "file-frag", "file-frag", "file-prog", "file-prog", "box", "box", "box", "box", "box"}
+	c := apiCase{Kind: kinds[pick(t, "kind", len(kinds))]}
 	switch c.Kind {
 	case "init":
 		c.Init = genInit(t, pct(t, 30, "protect"))
@@ -332,6 +383,7 @@ func genAPICase(t *rapid.T) apiCase {
 		} else {
 			c.Segs = []segR{genSeg(t, env)}
 		}
+		c.Decrypt = env.protect != nil && pct(t, 25, "decrypt")
 	case "file-frag":
 		if pct(t, 90, "withInit") {
 			c.Init = genInit(t, pct(t, 25, "protect"))
@@ -351,10 +403,13 @@ func genAPICase(t *rapid.T) apiCase {
 		if pct(t, 20, "tail") {
 			c.File.Tail = genSome(t, "tail", 1, 2, "free", "skip", "unknown")
 		}
+		if c.Init != nil && len(c.Init.Manual) == 0 && pct(t, 20, "updateSidx") {
+			c.File.UpdateSidx = rapid.IntRange(1, 2).Draw(t, "updateSidxMode")
+		}
 	case "file-prog":
 		c.Prog = genProg(t)
 	case "box":
-		b := genBox(t, rapid.SampledFrom(boxKindNames).Draw(t, "boxKind"), 0)
+		b := genBox(t, boxKindNames[pick(t, "boxKind", len(boxKindNames))], 0)
 		c.Box = &b
 	default:
 		panic(fmt.Sprintf("kind %q", c.Kind))
